@@ -294,12 +294,11 @@ func (p *Primary) StreamWAL(
 
 // sendUpdatedEntries sends any new WAL entries to the replica since its last acknowledged sequence
 func (p *Primary) sendUpdatedEntries(session *ReplicaSession) error {
-	// Take the mutex to safely read and update session state
+	// Read the cursor under the session mutex, but do not hold it while reading
+	// the WAL: the write path takes wal.mu before session.mu
 	session.mu.Lock()
-	defer session.mu.Unlock()
-
-	// Get the next sequence number we should send
 	nextSequence := session.LastAckSequence + 1
+	session.mu.Unlock()
 
 	log.Info("Sending updated entries to replica %s starting from sequence %d",
 		session.ID, nextSequence)
@@ -338,7 +337,9 @@ func (p *Primary) sendUpdatedEntries(session *ReplicaSession) error {
 		Codec:      proto.CompressionCodec_NONE,
 	}
 
-	// Send to the replica (we're already holding the lock)
+	// Send to the replica
+	session.mu.Lock()
+	defer session.mu.Unlock()
 	if err := session.Stream.Send(response); err != nil {
 		return fmt.Errorf("failed to send entries: %w", err)
 	}
@@ -622,9 +623,6 @@ func (p *Primary) resendEntries(session *ReplicaSession, fromSequence uint64) er
 // getWALEntriesFromSequence retrieves WAL entries starting from the specified sequence
 // in batches of up to maxEntriesToReturn entries at a time
 func (p *Primary) getWALEntriesFromSequence(fromSequence uint64) ([]*wal.Entry, error) {
-	p.mu.RLock()
-	defer p.mu.RUnlock()
-
 	// Get current sequence in WAL (next sequence - 1)
 	// We subtract 1 to get the current highest assigned sequence
 	currentSeq := p.wal.GetNextSequence() - 1
